@@ -504,3 +504,35 @@ func VerifH_C13_finalize() {
 		}
 	}
 }
+
+// VerifH_C20_jobcontroller: one SyncOne with any single API call failing
+// (task create, task delete, Job update, Job status update): the failure is
+// reported (so the key is requeued), and the state left behind is one the
+// inductive-step lemmas (C08, C09, C12, C13) start from.
+func VerifH_C20_jobcontroller() {
+	p := verifSetupPass(verifPassOpts{
+		job:            verifJobOpts{maxRefs: 1, parallel: 0, started: 1, allowKill: true, allowDeletion: true, maxAttemptsHi: 2, inv8: true, concreteTimes: true, oneResult: true, noRunning: true},
+		createOutcomes: 2, deleteMayFail: true, apiMayFail: true, taskMayFinish: true,
+	})
+	err := p.r.SyncOne(context.Background(), "ns", "job", 0)
+	faults := p.apiFailed + p.createErr + p.deleteFailed
+	if faults > 0 {
+		vz.Cover("fault-injected")
+		vz.Assert(err != nil, "C20/L2/jobcontroller-fault-is-reported-for-retry")
+	} else {
+		vz.Assert(err == nil, "C20/L2/fault-free-pass-succeeds")
+		vz.Cover("fault-free")
+	}
+	// whatever happened, a created task is never lost from the view the status write carries
+	if p.wroteStatus != nil {
+		for _, n := range p.createdNames {
+			found := false
+			for _, ref := range p.wroteStatus.Status.Tasks {
+				if ref.Name == n {
+					found = true
+				}
+			}
+			vz.Assert(found, "C20/L2/created-task-is-in-the-written-status")
+		}
+	}
+}
